@@ -37,6 +37,7 @@ class Env:
         self.classes = {}  # name -> class descriptor
         self.consts = {}  # module level int constants
         self.factories = []
+        self.cmp_pairs = []  # (class whose comparisons return NotImplemented, class defining all four orderings)
 
     def fresh(self, p="v"):
         self.n += 1
@@ -568,6 +569,64 @@ def gen_factory(draw, env):
     return ["func", name, outer, body]
 
 
+def _plain_desc(name, cmps):
+    return {"name": name, "base": None, "fields": ["v"], "methods": {}, "props": [], "cattrs": [],
+            "init": [["v", "n", None]], "call": None, "bool": False, "len": False, "getitem": False, "unary": [],
+            "mro": [name], "ops": set(), "cmps": set(cmps), "own_rbin": [], "own_cmp": list(cmps)}
+
+
+def gen_cmp_classes(draw, env):
+    """A pair of value classes for the reflected path of rich comparisons: N's comparisons return NotImplemented,
+    F defines all four orderings (and optionally ==, !=) on its field, also against plain numbers."""
+    out = []
+    init = ["method", "__init__", None, [["v", "n", None]], [["assign", "self.v", var("v")]]]
+    nn, fn = env.fresh("N"), env.fresh("F")
+    ni_syms = draw(st.lists(st.sampled_from(sorted(OVL_CMP)), min_size=2, max_size=6, unique=True)) \
+        if draw(st.booleans()) else sorted(OVL_CMP)
+    out.append(["class", nn, [], [init] + [["method", f"__{OVL_CMP[sym]}__", None, [["other", "n", None]],
+                                           [["return", var("NotImplemented")]]] for sym in ni_syms]])
+    env.classes[nn] = _plain_desc(nn, ni_syms)
+    f_syms = ["<", "<=", ">", ">="] + draw(st.sampled_from([[], ["=="], ["==", "!="]]))
+    members = [init]
+    for sym in f_syms:
+        members.append(["method", f"__{OVL_CMP[sym]}__", None, [["other", "n", None]],
+                        [["if", call("isinstance", var("other"), ["tuple", [var("int"), var("float")]]),
+                          [["return", ["cmp", [var("self.v"), var("other")], [sym]]]],
+                          [["return", ["cmp", [var("self.v"), ["attr", var("other"), "v"]], [sym]]]]]]])
+    out.append(["class", fn, [], members])
+    env.classes[fn] = _plain_desc(fn, f_syms)
+    env.cmp_pairs.append((nn, fn))
+    return out
+
+
+def gen_cmp_dispatch(draw, sc, env):
+    """lhs <op> rhs [<op> third] where the left method is missing / NotImplemented, so the reflected method of the
+    right operand decides; operand values are equal half of the time (< vs <=, > vs >= then differ)."""
+    nn, fn = draw(st.sampled_from(env.cmp_pairs))
+    k = draw(st.integers(0, 3))
+
+    def near():
+        return k if draw(st.booleans()) else k + draw(st.sampled_from([-1, 1]))
+
+    def left():
+        return W(draw, [(5, lambda: call(nn, lit(k))), (3, lambda: lit(k)), (1, lambda: lit(float(k))),
+                        (1, lambda: call(fn, lit(k))), (1, lambda: lit(bool(k & 1)))])
+
+    def right():
+        return W(draw, [(14, lambda: call(fn, lit(near()))), (1, lambda: call(nn, lit(near())))])
+
+    ops = sorted(OVL_CMP)
+    operands = [left(), right()]
+    syms = [draw(st.sampled_from(ops))]
+    if draw(st.integers(0, 2)) == 0:
+        operands.append(W(draw, [(3, lambda: call(fn, lit(near()))), (2, lambda: lit(near())), (1, lambda: call(nn, lit(near())))]))
+        syms.append(draw(st.sampled_from(ops)))
+        if operands[0][0] == "lit" and draw(st.booleans()):
+            operands.insert(0, lit(near()))
+            syms.insert(0, draw(st.sampled_from(ops)))
+    return ["cmp", operands, syms]
+
+
 def gen_class(draw, env):
     """One class (optionally derived from an earlier one) from a parametrised template."""
     name = env.fresh("C")
@@ -1044,6 +1103,12 @@ def gen_stmt(draw, sc, env):
         sc[n] = "X"
         return {"s": ["assign", n, e], "out": [n], "fam": "dispatch:" + kind}
 
+    def cmpdispatch():
+        n = env.fresh()
+        e = gen_cmp_dispatch(draw, sc, env)
+        sc[n] = "b"
+        return {"s": ["assign", n, e], "out": [n], "fam": "dispatch:cmp_reflected"}
+
     def xdata():
         n = env.fresh()
         form = draw(st.integers(0, 5))
@@ -1103,6 +1168,8 @@ def gen_stmt(draw, sc, env):
         opts.append((5 if not obj_names(sc) else 2, newobj))
     if obj_names(sc):
         opts += [(14, dispatch), (2, objmisc)]
+    if env.cmp_pairs:
+        opts.append((14, cmpdispatch))
     return W(draw, opts)
 
 
@@ -1119,6 +1186,18 @@ def program(draw):
         defs.append(gen_func(draw, env))
     for _ in range(draw(st.sampled_from([0, 1]))):
         defs.append(gen_factory(draw, env))
+        if draw(st.integers(0, 3)):
+            # closures created natively at import time (traced later through from_callable) whose free variables
+            # are shadowed by module globals of the same names: the cell must win, as in CPython
+            fd = env.factories[-1]
+            for gname in ["n", "m", "z"]:
+                defs.append(["const", gname, lit(draw(st.sampled_from([50, 70, -60])))])
+            for _ in range(draw(st.integers(1, 2))):
+                hname = env.fresh("hc")
+                defs.append(["const", hname, gen_call(draw, {"callee": var(fd["name"]), "params": fd["outer"]}, {}, env, 0)])
+                env.funcs.append({"callee": var(hname), "params": fd["inner"], "ret": "i", "tag": "module_closure"})
+    if draw(st.booleans()):
+        defs += gen_cmp_classes(draw, env)
     for _ in range(draw(st.sampled_from([0, 1, 2, 2, 3, 3]))):
         defs.append(gen_class(draw, env))
     sc = {}
@@ -1187,6 +1266,8 @@ def view(case):
 # ============================================================================ feature classes (labels)
 def def_features(d):
     f = set()
+    if d[0] == "const" and d[2][0] == "call":
+        f.add("def:module_closure")
     if d[0] == "func":
         f.add("def:func")
         _body_features(d[3], f)
@@ -1530,6 +1611,8 @@ def _callee_kind(case, stmts, node):
         return "builtin"
     for d in case["defs"]:
         if d[1] == name:
+            if d[0] == "const" and d[2][0] == "call":
+                return "module_closure"
             return {"func": "modfunc", "class": "ctor", "const": "const"}[d[0]]
     for s in stmts:
         st_ = s["s"]
@@ -1629,6 +1712,8 @@ def _classify(case, stmts, i, diff, H):
             else:
                 rname = "__" + {"==": "eq", "!=": "ne", "<": "gt", ">": "lt", "<=": "ge", ">=": "le"}.get(sym, "x") + "__"
             sig["rhs_overrides_reflected"] = bool(rel == "rhs_subclass" and getattr(tb, rname, None) is not getattr(ta, rname, None))
+            if node[0] == "cmp":
+                sig["op"] = sym
         else:
             sig["op"] = node[1] if node[0] in ("bin", "un") else ",".join(node[2]) if node[0] == "cmp" else "-"
     elif node[0] == "call":
